@@ -420,6 +420,7 @@ class OpRunner(object):
                 with open(p, 'wb') as f:
                     f.write(b'OLD-CONTENT-' * (int(op['prefill']) // 12 + 1))      # the destination exists already and may be longer than what is pulled
             rec['dest_path'] = p
+            parent_existed = os.path.isdir(os.path.dirname(p))
             lp = p
             if op.get('dest') == 'pathlib':
                 import pathlib
@@ -434,6 +435,9 @@ class OpRunner(object):
                     with open(p, 'rb') as f:
                         rec['dest_bytes'] = f.read()
                     os.unlink(p)
+                if not parent_existed and os.path.isdir(os.path.dirname(p)):
+                    rec['dest_parent_created'] = True
+                    shutil.rmtree(os.path.join(tmpdir(), op.get('local_name', 'x').split('/')[0]), True)
             return None
         if k == 'push':
             cb = self._callback(op, rec)
@@ -639,6 +643,7 @@ class OpRunner(object):
                 with open(p, 'wb') as f:
                     f.write(b'OLD-CONTENT-' * (int(op['prefill']) // 12 + 1))
             rec['dest_path'] = p
+            parent_existed = os.path.isdir(os.path.dirname(p))
             try:
                 lp = p
                 if op.get('dest') == 'pathlib':
@@ -653,6 +658,9 @@ class OpRunner(object):
                     with open(p, 'rb') as f:
                         rec['dest_bytes'] = f.read()
                     os.unlink(p)
+                if not parent_existed and os.path.isdir(os.path.dirname(p)):
+                    rec['dest_parent_created'] = True
+                    shutil.rmtree(os.path.join(tmpdir(), op.get('local_name', 'x').split('/')[0]), True)
             return None
         if k == 'push':
             cb = self._callback(op, rec)
